@@ -384,7 +384,8 @@ class SQLLineageHolder(ColumnLineageMixin):
             elif holder.rename:
                 for table_old, table_new in holder.rename:
                     g = nx.relabel_nodes(g, {table_old: table_new})
-                    g.remove_edge(table_new, table_new)
+                    if g.has_edge(table_new, table_new):
+                        g.remove_edge(table_new, table_new)
                     if g.degree[table_new] == 0:
                         g.remove_node(table_new)
             else:
